@@ -461,7 +461,7 @@ func inputValue(s string, t Type) (Value, error) {
 		if !math.IsInf(f, 0) && math.Abs(f) > math.MaxFloat32 {
 			return Value{}, rtErr("%q is out of range for type real", s)
 		}
-		return Value{T: TFloat4, F: float64(float32(f))}, nil
+		return Value{T: TFloat4, I: floatBits(float64(float32(f)))}, nil
 	case TNumeric:
 		n, err := parseNumeric(s)
 		if err != nil {
@@ -489,7 +489,8 @@ func coerceUnknown(v Value, t Type) (Value, error) {
 	if v.T != TUnknown {
 		return v, nil
 	}
-	if t == TUnknown {
+	if t == TUnknown || t == TNullAny {
+		// next to a NULL of untracked type the literal's target type is not known: it stays text and is never compared
 		t = TText
 	}
 	if v.Null {
@@ -573,6 +574,9 @@ func castValue(v Value, t Type) (Value, error) {
 	if v.T == t {
 		return v, nil
 	}
+	if v.T == TNullAny {
+		return Null(t), nil
+	}
 	if v.T == TUnknown {
 		return coerceUnknown(v, t)
 	}
@@ -589,8 +593,8 @@ func castValue(v Value, t Type) (Value, error) {
 		if v.Null {
 			return Null(t), nil
 		}
-		out := make([]Value, len(v.A))
-		for i, e := range v.A {
+		out := make([]Value, len(v.A()))
+		for i, e := range v.A() {
 			if e.T == TUnknown && !e.Null {
 				e.T = TText
 			}
@@ -637,13 +641,13 @@ func castValue(v Value, t Type) (Value, error) {
 			}
 			return Value{T: t, I: v.I}, nil
 		case TFloat4, TFloat8:
-			i, err := float8ToInt(v.F, t)
+			i, err := float8ToInt(v.F(), t)
 			if err != nil {
 				return Value{}, err
 			}
 			return Value{T: t, I: i}, nil
 		case TNumeric:
-			i, err := v.N.Int64()
+			i, err := v.N().Int64()
 			if err != nil {
 				return Value{}, rtErr("%v", err)
 			}
@@ -659,7 +663,7 @@ func castValue(v Value, t Type) (Value, error) {
 				return Int4(v.I), nil
 			}
 		case TJSONB:
-			n, isNull, err := jsonbNumber(v.J, t)
+			n, isNull, err := jsonbNumber(v.J(), t)
 			if err != nil || isNull {
 				return Null(t), err
 			}
@@ -671,16 +675,16 @@ func castValue(v Value, t Type) (Value, error) {
 		case TInt2, TInt4, TInt8:
 			f = float64(v.I)
 		case TFloat4, TFloat8:
-			f = v.F
+			f = v.F()
 		case TNumeric:
-			f = v.N.Float64()
-			if math.IsInf(f, 0) && v.N.IsFinite() {
-				return Value{}, rtErr("%q is out of range for type double precision", v.N.String())
+			f = v.N().Float64()
+			if math.IsInf(f, 0) && v.N().IsFinite() {
+				return Value{}, rtErr("%q is out of range for type double precision", v.N().String())
 			}
 		case TText:
 			return inputValue(v.S, t)
 		case TJSONB:
-			n, isNull, err := jsonbNumber(v.J, t)
+			n, isNull, err := jsonbNumber(v.J(), t)
 			if err != nil || isNull {
 				return Null(t), err
 			}
@@ -694,19 +698,19 @@ func castValue(v Value, t Type) (Value, error) {
 			}
 			f = float64(float32(f))
 		}
-		return Value{T: t, F: f}, nil
+		return Value{T: t, I: floatBits(f)}, nil
 	case TNumeric:
 		switch v.T {
 		case TInt2, TInt4, TInt8:
 			return Numeric(NumFromInt(v.I)), nil
 		case TFloat4:
-			n, err := ParseNum(strconv.FormatFloat(v.F, 'g', 6, 64))
+			n, err := ParseNum(strconv.FormatFloat(v.F(), 'g', 6, 64))
 			if err != nil {
 				return Value{}, rtErr("%v", err)
 			}
 			return Numeric(n), nil
 		case TFloat8:
-			n, err := NumFromFloat(v.F)
+			n, err := NumFromFloat(v.F())
 			if err != nil {
 				return Value{}, rtErr("%v", err)
 			}
@@ -714,7 +718,7 @@ func castValue(v Value, t Type) (Value, error) {
 		case TText:
 			return inputValue(v.S, t)
 		case TJSONB:
-			n, isNull, err := jsonbNumber(v.J, t)
+			n, isNull, err := jsonbNumber(v.J(), t)
 			if err != nil || isNull {
 				return Null(t), err
 			}
@@ -727,13 +731,13 @@ func castValue(v Value, t Type) (Value, error) {
 		case TText:
 			return inputValue(v.S, t)
 		case TJSONB:
-			switch j := v.J.(type) {
+			switch j := v.J().(type) {
 			case bool:
 				return Bool(j), nil
 			case nil:
 				return Null(TBool), nil // PostgreSQL 18: a JSON null casts to NULL
 			}
-			return Value{}, rtErr("cannot cast jsonb %s to type boolean", jsonbTypeof(v.J))
+			return Value{}, rtErr("cannot cast jsonb %s to type boolean", jsonbTypeof(v.J()))
 		}
 	case TJSONB:
 		if v.T == TText {
@@ -790,11 +794,11 @@ func jsonbNumber(j any, t Type) (Num, bool, error) {
 
 func recordToComposite(v Value, t Type) (Value, error) {
 	_, types := compositeFields(t)
-	if len(v.A) != len(types) {
+	if len(v.A()) != len(types) {
 		return Value{}, staticErr("cannot cast type record to %s", t)
 	}
 	out := make([]Value, len(types))
-	for i, f := range v.A {
+	for i, f := range v.A() {
 		c, err := assignCast(f, types[i])
 		if err != nil {
 			return Value{}, err
@@ -808,6 +812,9 @@ func recordToComposite(v Value, t Type) (Value, error) {
 func assignCast(v Value, t Type) (Value, error) {
 	if v.T == t {
 		return v, nil
+	}
+	if v.T == TNullAny {
+		return Null(t), nil
 	}
 	if v.T == TUnknown {
 		return coerceUnknown(v, t)
@@ -860,6 +867,11 @@ func cmpFloat(a, b float64) int {
 // the other side, the numeric family is mutually comparable, everything else needs identical types.
 func unifyPair(op string, a, b Value) (Value, Value, error) {
 	var err error
+	if a.T == TNullAny || b.T == TNullAny {
+		a, _ = coerceUnknown(a, TText)
+		b, _ = coerceUnknown(b, TText)
+		return a, b, nil
+	}
 	if a.T == TUnknown && b.T == TUnknown {
 		a, _ = coerceUnknown(a, TText)
 		b, _ = coerceUnknown(b, TText)
@@ -905,9 +917,9 @@ func toFloat(v Value) float64 {
 	case v.T.IsInt():
 		return float64(v.I)
 	case v.T == TNumeric:
-		return v.N.Float64()
+		return v.N().Float64()
 	}
-	return v.F
+	return v.F()
 }
 
 func toNum(v Value) Num {
@@ -915,9 +927,9 @@ func toNum(v Value) Num {
 	case v.T.IsInt():
 		return NumFromInt(v.I)
 	case v.T == TNumeric:
-		return v.N
+		return v.N()
 	}
-	n, _ := NumFromFloat(v.F)
+	n, _ := NumFromFloat(v.F())
 	return n
 }
 
@@ -925,12 +937,12 @@ func toNum(v Value) Num {
 // needs equality (no collation involved).
 func compareValues(a, b Value, ordering bool) (int, error) {
 	if a.T.IsArray() {
-		n := len(a.A)
-		if len(b.A) < n {
-			n = len(b.A)
+		n := len(a.A())
+		if len(b.A()) < n {
+			n = len(b.A())
 		}
 		for i := 0; i < n; i++ {
-			x, y := a.A[i], b.A[i]
+			x, y := a.A()[i], b.A()[i]
 			switch {
 			case x.Null && y.Null:
 				continue
@@ -944,7 +956,7 @@ func compareValues(a, b Value, ordering bool) (int, error) {
 				return c, err
 			}
 		}
-		return cmpInt(int64(len(a.A)), int64(len(b.A))), nil
+		return cmpInt(int64(len(a.A())), int64(len(b.A()))), nil
 	}
 	switch {
 	case a.T.IsNumeric():
@@ -961,18 +973,18 @@ func compareValues(a, b Value, ordering bool) (int, error) {
 		return textCompare(a.S, b.S)
 	case a.T == TJSONB:
 		if !ordering {
-			if jsonbEqual(a.J, b.J) {
+			if jsonbEqual(a.J(), b.J()) {
 				return 0, nil
 			}
 			return 1, nil
 		}
-		return jsonbCompare(a.J, b.J)
+		return jsonbCompare(a.J(), b.J())
 	case a.T.IsComposite():
-		if len(a.A) != len(b.A) {
+		if len(a.A()) != len(b.A()) {
 			return 0, staticErr("cannot compare record types with different numbers of columns")
 		}
-		for i := range a.A {
-			x, y := a.A[i], b.A[i]
+		for i := range a.A() {
+			x, y := a.A()[i], b.A()[i]
 			switch {
 			case x.Null && y.Null:
 				continue
@@ -1006,6 +1018,9 @@ func compareOp(op pgsql.Operator, a, b Value) (Value, error) {
 	}
 	if a.Null || b.Null {
 		return Null(TBool), nil
+	}
+	if a.T != b.T && !(a.T.IsNumeric() && b.T.IsNumeric()) && !(a.T.IsComposite() && b.T.IsComposite()) {
+		return Value{}, staticErr("operator does not exist: %s %s %s", a.T, op, b.T)
 	}
 	eqOnly := op == pgsql.OperatorEquals || op == pgsql.OperatorNotEquals || op == pgsql.OperatorCypherNotEquals
 	c, err := compareValues(a, b, !eqOnly)
@@ -1050,7 +1065,7 @@ func hashKey(sb *strings.Builder, v Value) {
 	}
 	if v.T.IsArray() || v.T.IsComposite() {
 		sb.WriteByte('[')
-		for _, e := range v.A {
+		for _, e := range v.A() {
 			hashKey(sb, e)
 			sb.WriteByte(',')
 		}
@@ -1069,22 +1084,22 @@ func hashKey(sb *strings.Builder, v Value) {
 		sb.WriteString(strconv.FormatInt(v.I, 10))
 	case TFloat4, TFloat8:
 		sb.WriteByte('#')
-		if v.F == math.Trunc(v.F) && math.Abs(v.F) < 1e15 {
-			sb.WriteString(strconv.FormatInt(int64(v.F), 10))
-		} else if n, err := ParseNum(strconv.FormatFloat(v.F, 'e', -1, 64)); err == nil {
+		if v.F() == math.Trunc(v.F()) && math.Abs(v.F()) < 1e15 {
+			sb.WriteString(strconv.FormatInt(int64(v.F()), 10))
+		} else if n, err := ParseNum(strconv.FormatFloat(v.F(), 'e', -1, 64)); err == nil {
 			sb.WriteString(n.hashKey())
 		} else {
-			sb.WriteString(strconv.FormatFloat(v.F, 'g', -1, 64))
+			sb.WriteString(strconv.FormatFloat(v.F(), 'g', -1, 64))
 		}
 	case TNumeric:
 		sb.WriteByte('#')
-		sb.WriteString(v.N.hashKey())
+		sb.WriteString(v.N().hashKey())
 	case TText, TUnknown:
 		sb.WriteByte('\'')
 		sb.WriteString(strconv.Quote(v.S))
 	case TJSONB:
 		sb.WriteByte('j')
-		jsonHashKey(sb, v.J)
+		jsonHashKey(sb, v.J())
 	}
 }
 
@@ -1133,6 +1148,9 @@ func widerInt(a, b Type) Type {
 
 func arith(op pgsql.Operator, a, b Value) (Value, error) {
 	var err error
+	if a.T == TNullAny || b.T == TNullAny {
+		return NullAny(), nil
+	}
 	switch {
 	case a.T == TUnknown && b.T == TUnknown:
 		return Value{}, staticErr("operator is not unique: unknown %s unknown", op)
@@ -1226,7 +1244,7 @@ func arith(op pgsql.Operator, a, b Value) (Value, error) {
 		if r == 0 && x != 0 && y != 0 && (op == pgsql.OperatorMultiply || (op == pgsql.OperatorDivide && !math.IsInf(y, 0))) {
 			return Value{}, rtErr("value out of range: underflow")
 		}
-		return Value{T: rt, F: r}, nil
+		return Value{T: rt, I: floatBits(r)}, nil
 	default:
 		x, y := toNum(a), toNum(b)
 		var r Num
@@ -1253,6 +1271,9 @@ func arith(op pgsql.Operator, a, b Value) (Value, error) {
 }
 
 func negate(v Value) (Value, error) {
+	if v.T == TNullAny {
+		return v, nil
+	}
 	if v.T == TUnknown {
 		// "- 'x'": operator is not unique; a numeric literal never arrives here as unknown
 		return Value{}, staticErr("operator is not unique: - unknown")
@@ -1271,9 +1292,9 @@ func negate(v Value) (Value, error) {
 		}
 		return Value{T: v.T, I: -v.I}, nil
 	case v.T.IsFloat():
-		return Value{T: v.T, F: -v.F}, nil
+		return Value{T: v.T, I: floatBits(-v.F())}, nil
 	}
-	return Numeric(v.N.Neg()), nil
+	return Numeric(v.N().Neg()), nil
 }
 
 // ---------------------------------------------------------------------------------------------------------------------
